@@ -155,11 +155,24 @@ func solveOne(c *FnCtx, o *Obligation, timeoutMs int) {
 		if r.status == "sat" {
 			o.Status, o.Solver, o.Ms = "sat", r.solver, r.ms
 			cancel()
-			out, _ := runSolver(sps[1], query+"(get-model)\n", time.Duration(timeoutMs+3000)*time.Millisecond)
+			// values of the source-level variables in the counterexample
+			var names, terms []string
+			for n, tm := range o.Vars {
+				names = append(names, n)
+				terms = append(terms, tm)
+			}
+			gv := ""
+			if len(terms) > 0 {
+				gv = "(get-value (" + strings.Join(terms, " ") + "))\n"
+			}
+			// the cone of the query may lack symbols used only by Vars: extend it
+			q2 := c.queryWith(o, terms)
+			out, _ := runSolver(sps[1], q2+gv, time.Duration(timeoutMs+3000)*time.Millisecond)
 			if !strings.HasPrefix(strings.TrimSpace(out), "sat") {
-				out, _ = runSolver(sps[0], query+"(get-model)\n", time.Duration(timeoutMs+3000)*time.Millisecond)
+				out, _ = runSolver(sps[0], q2+gv, time.Duration(timeoutMs+3000)*time.Millisecond)
 			}
 			o.Model = out
+			o.Values = parseValues(out, names, terms)
 			return
 		}
 	}
@@ -192,4 +205,43 @@ func firstLine(s string) string {
 		return s[:i]
 	}
 	return s
+}
+
+
+// parseValues reads a (get-value ...) answer: ((term value) ...)
+func parseValues(out string, names, terms []string) map[string]string {
+	res := map[string]string{}
+	i := strings.Index(out, "((")
+	if i < 0 {
+		return res
+	}
+	body := out[i:]
+	for k, tm := range terms {
+		j := strings.Index(body, "("+tm+" ")
+		if j < 0 {
+			continue
+		}
+		rest := body[j+len(tm)+2:]
+		// value up to the matching close paren
+		depth := 0
+		end := 0
+		for end < len(rest) {
+			ch := rest[end]
+			if ch == '(' {
+				depth++
+			} else if ch == ')' {
+				if depth == 0 {
+					break
+				}
+				depth--
+			}
+			end++
+		}
+		v := strings.TrimSpace(rest[:end])
+		if strings.HasPrefix(v, "(- ") {
+			v = "-" + strings.TrimSuffix(v[3:], ")")
+		}
+		res[names[k]] = v
+	}
+	return res
 }
